@@ -5,6 +5,7 @@ CONSTANTS
   Caps = {0, 1, 2}
   MaxItems = 8
   Cons = {1, 2, 3, 4}
+  Prods = {1, 2, 3}
   Depth = 18
 INVARIANTS Emit
 CHECK_DEADLOCK FALSE
